@@ -367,6 +367,21 @@ def oracle(case):
     if 'P' in spec and s.P != spec['P']: return f'vle({sk}): specified P={spec["P"]} but the stream has P={s.P}'
     has_volatile = any(case[ph][i] for ph in 'lg' for i in range(3))
     # (without a volatile chemical VLE.__call__ catches NoEquilibrium and only stores P: outside the quantifier, see report)
+    Fv = sum(case[ph][i] for ph in 'lg' for i in range(3))
+    small_inerts = (sum(case[ph][i] for ph in 'lg' for i in (3, 4)) <= 0.1 * Fv and sum(case[ph][i] for ph in 'lg' for i in (5, 6)) <= 0.1 * Fv)
+    if sk in ('TH', 'TS') and has_volatile and small_inerts:
+        # T,H / T,S solve for P with flexsolve to P_tol = 1 Pa: "reproduced" up to that resolution -- the specified value must
+        # be bracketed by the equilibrium values one resolution step to either side (or be met to 1e-5)
+        prop = sk[1]
+        got = getattr(s, prop); want = spec[prop]
+        if abs(got - want) > 1e-5 * max(1., abs(want)) + 1e-5 * abs(s.F_mass):
+            lo = _flash(case, {'T': s.T, 'P': s.P + 1.}); hi = _flash(case, {'T': s.T, 'P': s.P - 1.})
+            vals = [getattr(x, prop) for x in (lo, hi) if x is not None]
+            if len(vals) < 2 or not (min(vals) - 1e-6 * abs(want) <= want <= max(vals) + 1e-6 * abs(want)):
+                return (f'vle({sk}): specified {prop}={want} but the stream has {prop}={got} (T={s.T}, P={s.P}); the equilibrium values at P-1 Pa / P+1 Pa '
+                        f'({vals}) do not bracket the specification')
+    if sk == 'PS' and has_volatile and small_inerts and abs(s.S - spec['S']) > 1e-3 * max(1., abs(spec['S'])) + 1e-5 * abs(s.F_mass):
+        return f'vle(PS): specified S={spec["S"]} but the stream has S={s.S} (T={s.T}, P={s.P})'
     if sk == 'PH' and has_volatile and abs(s.H - spec['H']) > 1e-6 * max(1., abs(spec['H'])) + 1e-6 * abs(s.F_mass):
         return f'vle(PH): specified H={spec["H"]} but the stream has H={s.H}'
     volatile_only = not any(case[ph][i] for ph in case['phases'] for i in range(3, 7))
@@ -383,14 +398,14 @@ def oracle(case):
                 return f'vle({sk}): specified V={spec["V"]} but the stream has V={V} and the specification is not bracketed within the solver resolution'
     # scaling
     if sk[1] not in 'xy':
-        k = 4.
-        s4 = _flash(case, spec, scale=k)
-        if s4 is None: return f'vle({sk}) scaling: the flash of the feed multiplied by {k} raised'
-        a, b = _rows(s) * k, _rows(s4)
-        tol = 1e-6 * max(1., float(np.abs(a).max()))
-        if np.abs(a - b).max() > tol or abs(s4.T - s.T) > 1e-6 * s.T or abs(s4.P - s.P) > 1e-6 * s.P:
-            return (f'vle({sk}) scaling: feed x{k} does not give products x{k}: max flow difference {float(np.abs(a - b).max())}, '
-                    f'T {s.T} vs {s4.T}, P {s.P} vs {s4.P}')
+        for k in (4., 2. ** -30, 2. ** 20):          # ordinary, down to trace amounts (~1e-9 of the feed), up
+            s4 = _flash(case, spec, scale=k)
+            if s4 is None: return f'vle({sk}) scaling: the flash of the feed multiplied by {k} raised'
+            a, b = _rows(s) * k, _rows(s4)
+            tol = 1e-6 * max(float(np.abs(a).max()), 1e-300)
+            if np.abs(a - b).max() > tol or abs(s4.T - s.T) > 1e-6 * s.T or abs(s4.P - s.P) > 1e-6 * s.P:
+                return (f'vle({sk}) scaling: feed x{k} does not give products x{k}: largest flow difference {float(np.abs(a - b).max())} '
+                        f'(largest product flow {float(np.abs(a).max())}), T {s.T} vs {s4.T}, P {s.P} vs {s4.P}')
     # ideal package against an independent Raoult / Rachford-Rice flash
     if sk == 'TP' and volatile_only:
         e = C03.env()
